@@ -1,5 +1,5 @@
 """C15  Options resolve per field: run time over benchmark over innermost group."""
-from lib.facts import norm, place_fields, direct_place, nophi, const_int
+from lib.facts import norm, place_fields, direct_place, nophi, const_int, place_root_fields
 from lib import tables
 
 INLINE = True      # crate-local helpers the rules do not know by name are inlined into their callers (lib/inline.py)
@@ -488,12 +488,12 @@ def r15_3(ctx, prog, crate):
     ctx.anchor("R15.3", "counter options stored", n, 4)
     # sort / sortr
     for bi, si, s in b.stmts():
-        if s["k"] == "assign" and s["p"]["l"] == 1 and place_fields(s["p"]) == ("reverse_sort",):
+        if s["k"] == "assign" and s["p"]["proj"] and place_root_fields(b, s["p"]) == (1, ("reverse_sort",)):
             val = s["rv"]["o"]["c"]["d"] if s["rv"]["k"] == "use" and s["rv"]["o"]["k"] == "const" else None
             # the sorting_attr stored in the same block comes from which option?
             ids = set()
             for s2 in b.blocks[bi]["stmts"]:
-                if s2["k"] == "assign" and s2["p"]["l"] == 1 and place_fields(s2["p"]) == ("sorting_attr",):
+                if s2["k"] == "assign" and s2["p"]["proj"] and place_root_fields(b, s2["p"]) == (1, ("sorting_attr",)):
                     ids = str_consts(b.prov._rv(s2["rv"], (), frozenset(), bi, 0)) & set(reads)
             want = {"true": {"sortr"}, "false": {"sort"}}.get(val)
             ctx.check(want is not None and ids == want, "R15.3", ["sort-direction", str(val)],
@@ -640,7 +640,7 @@ def r15_5(ctx, prog, crate):
     if b is not None:
         got = {}
         for bi, si, s in b.stmts():
-            if s["k"] == "assign" and s["p"]["l"] == 1 and place_fields(s["p"]) == ("run_ignored",):
+            if s["k"] == "assign" and s["p"]["proj"] and place_root_fields(b, s["p"]) == (1, ("run_ignored",)):
                 srcs = b.prov._rv(s["rv"], (), frozenset(), bi, si)
                 vs = {x.a.rsplit("::", 1)[-1] for x in srcs if x.kind == "variant"}
                 # nearest dominating get_flag switch
@@ -667,7 +667,7 @@ def r15_5(ctx, prog, crate):
             continue
         vs = set()
         for bi, si, s in m.stmts():
-            if s["k"] == "assign" and s["p"]["l"] == 1 and place_fields(s["p"]) == ("run_ignored",):
+            if s["k"] == "assign" and s["p"]["proj"] and place_root_fields(m, s["p"]) == (1, ("run_ignored",)):
                 vs |= {x.a.rsplit("::", 1)[-1] for x in m.prov._rv(s["rv"], (), frozenset(), bi, si) if x.kind == "variant"}
         ctx.check(vs == {want}, "R15.5", ["builder", fn], "Divan::%s sets run_ignored = %s, expected %s" % (fn, sorted(vs), want), m.where(0))
 
